@@ -13,6 +13,7 @@ import Gsp.Model.Claim
 import Gsp.Model.Verify
 import Gsp.Model.Resolve
 import Gsp.Model.Hex
+import Gsp.Model.PathObj
 import Gsp.Model.Loader
 import Gsp.Model.Json
 import Gsp.Model.Schema
@@ -464,6 +465,26 @@ def opHexBytes (inp : Json) : Except String Json := do
   | none => pure (errJ "hex")
   | some bs => pure (okJ (Json.str (String.ofList ((Hex.encode bs).map Char.ofNat))))
 
+def pathOpOf (j : Json) : Except String PathObj.Op := do
+  match ← jstr j "o" with
+  | "append" => pure (.append (← partsOf (← j.getObjVal? "parts")))
+  | "prepend" => pure (.prepend (← partsOf (← j.getObjVal? "parts")))
+  | "key" => pure .key
+  | "parts" => pure .parts
+  | o => throw s!"path op {o}"
+
+/-- a caller's history over one Path value: per observation the key (or `err`) resp. the parts -/
+def opPathHistory (k : Pos.Consts) (inp : Json) : Except String Json := do
+  let h ← hasherOf k (← inp.getObjVal? "hasher")
+  let start ← partsOf (← inp.getObjVal? "start")
+  let ops ← (← (← inp.getObjVal? "ops").getArr?).toList.mapM pathOpOf
+  let outs := (PathObj.run h start ops).filterMap fun
+    | .none => none
+    | .key (.ok n) => some (Json.str (toString n))
+    | .key (.error _) => some (Json.str "err")
+    | .parts ps => some (Json.arr (ps.map partJ).toArray)
+  pure (okJ (Json.arr outs.toArray))
+
 def registryOpOf (j : Json) : Except String Resolve.Op := do
   let o ← jstr j "o"
   let own ← (← j.getObjVal? "own").getBool?
@@ -685,6 +706,7 @@ def handle (k : Pos.Consts) (op : String) (inp : Json) : Except String Json :=
   | "verify.status" => opVerifyStatus k inp
   | "verify.http" => opVerifyHttp inp
   | "registry.run" => opRegistryRun inp
+  | "path.history" => opPathHistory k inp
   | "hex.claim" => opHexClaim inp
   | "hex.bytes" => opHexBytes inp
   | "cred.view" => opCredView inp
